@@ -783,9 +783,18 @@ def _label_out(kwargs, units):
 
 @implements(np.var)
 def var(a, *args, **kwargs):
-    ret = np.var._implementation(np.asarray(a), *args, **kwargs) * a.units**2
-    _label_out(kwargs, a.units**2)
-    return ret
+    units = a.units**2
+    out = kwargs.get("out")
+    if out is None:
+        return np.var._implementation(np.asarray(a), *args, **kwargs) * units
+    # NumPy hands back the buffer itself, and np.nanstd takes the root of what
+    # it gets back in place: stay attached to the buffer, do not return a copy
+    kwargs["out"] = np.asarray(out)
+    res = np.var._implementation(np.asarray(a), *args, **kwargs)
+    if getattr(out, "units", None) is not None:
+        out.units = units
+    ret_cls = unyt_array if res.shape else unyt_quantity
+    return ret_cls(res, units, bypass_validation=True)
 
 
 @implements(np.trace)
